@@ -85,8 +85,15 @@ func (s *Sim) genReplay(exclude map[int]bool) SubCmd {
 	r := s.r
 	var cand []*HtlcSpec
 	for _, h := range s.htlcs {
-		if !exclude[h.Link] {
+		if !exclude[h.Link] && (s.provoke || !(s.staleJIT(h) || (s.ioEvent && s.jitPath(h)))) {
 			cand = append(cand, h)
+		}
+	}
+	if len(cand) == 0 {
+		for _, h := range s.htlcs {
+			if !exclude[h.Link] {
+				cand = append(cand, h)
+			}
 		}
 	}
 	if len(cand) == 0 {
@@ -255,6 +262,18 @@ func (s *Sim) genHtlcCmd(link int) SubCmd {
 			open = append(open, a)
 		}
 	}
+	if !s.provoke {
+		// Re-using the set id of an already resolved AMP set trips a known
+		// KV-store defect (see oracle: kv-amp-setid-reuse...); keep that to
+		// the runs that are meant to provoke known findings.
+		var keep []*Attempt
+		for _, a := range open {
+			if !(a.SetID != [32]byte{} && s.resolvedShards(a)) {
+				keep = append(keep, a)
+			}
+		}
+		open = keep
+	}
 	if len(open) > 0 && r.Draw(8) < s.k.ContinueNum {
 		a := open[len(open)-1-r.Draw(len(open))]
 		s.shard(h, a)
@@ -271,12 +290,18 @@ func (s *Sim) genHtlcCmd(link int) SubCmd {
 	for _, sp := range s.invs {
 		ts = append(ts, tgt{"invoice", sp}, tgt{"invoice", sp})
 	}
-	ts = append(ts, tgt{"keysend", nil}, tgt{"spont-amp", nil}, tgt{"unknown", nil})
 	if s.cfg.AcceptKeySend {
-		ts = append(ts, tgt{"keysend", nil})
+		ts = append(ts, tgt{"keysend", nil}, tgt{"keysend", nil})
 	}
 	if s.cfg.AcceptAMP {
-		ts = append(ts, tgt{"spont-amp", nil})
+		ts = append(ts, tgt{"spont-amp", nil}, tgt{"spont-amp", nil})
+	}
+	// rarely: something the node is not configured to take
+	switch {
+	case len(ts) == 0:
+		ts = append(ts, tgt{"unknown", nil})
+	case r.Draw(16) == 15:
+		ts = []tgt{{"keysend", nil}, {"spont-amp", nil}, {"unknown", nil}}
 	}
 	t := ts[r.Draw(len(ts))]
 	switch t.kind {
@@ -538,4 +563,44 @@ func (s *Sim) genBurst() []SubCmd {
 		subs[i], subs[j] = subs[j], subs[i]
 	}
 	return subs
+}
+
+// staleJIT: replaying h now would run into lnd's just-in-time invoice
+// pre-check (processKeySend / processAMP compare the expiry with the CURRENT
+// height before the HTLC is looked up): a known finding, provoked only in the
+// runs drawn for it.
+func (s *Sim) staleJIT(h *HtlcSpec) bool {
+	if int64(h.Expiry) >= int64(s.height)+int64(s.cfg.RejectDelta) {
+		return false
+	}
+	return s.jitPath(h)
+}
+
+// jitPath: NotifyExitHopHtlc will try a just-in-time AddInvoice for h.
+func (s *Sim) jitPath(h *HtlcSpec) bool {
+	if h.HasAMP {
+		return s.cfg.AcceptAMP && h.HasMPP
+	}
+	return s.cfg.AcceptKeySend && h.KnowsPreimage() && !h.HasMPP
+}
+
+// resolvedShards: world 0 holds at least one shard of the attempt in a final
+// state.
+func (s *Sim) resolvedShards(a *Attempt) bool {
+	for _, p := range s.lastSnaps[0] {
+		if p == nil {
+			continue
+		}
+		for _, h := range p.Htlcs {
+			if h.State == invoices.HtlcStateAccepted {
+				continue
+			}
+			for _, n := range a.Shards {
+				if s.htlcs[n].Key == h.Key {
+					return true
+				}
+			}
+		}
+	}
+	return false
 }
